@@ -82,7 +82,7 @@ def run(ctx):
     tst2 = ta.call_blocks(REACT + 'try_start_task')
     pl2 = ta.call_blocks(REACT + 'prefill_loop')
     ctx.require(tal and tst2 and pl2, 'R04.2: anchors in try_alloc_and_start_task')
-    keys = [k for k, d in scrutinees(ta, OPTION).items() if d['root'] == ta.term[tst2[0]]['d'][0]]
+    keys = sorted([k for k, d in scrutinees(ta, OPTION).items() if d['root'] == ta.term[tst2[0]]['d'][0]], key=len)
     ctx.require(keys, 'R04.2: result of try_start_task not matched')
     entries, region = ta.arm_entries(OPTION, {'Some'}, keys[0])
     ok4, _ = must_pass(ta, entries, pl2)
